@@ -506,8 +506,17 @@ impl<R: RuleType> ::serde::Serialize for Pairs<'_, R> {
     where
         S: ::serde::Serializer,
     {
-        let start = self.pos(self.start);
-        let end = self.pos(self.end - 1);
+        // An empty `Pairs` has no first or last token to take positions from.
+        let (start, end) = if self.start < self.end {
+            (self.pos(self.start), self.pos(self.end - 1))
+        } else {
+            let pos = match self.queue.get(self.start).or(self.queue.last()) {
+                Some(QueueableToken::Start { input_pos, .. })
+                | Some(QueueableToken::End { input_pos, .. }) => *input_pos,
+                None => 0,
+            };
+            (pos, pos)
+        };
         let pairs = self.clone().collect::<Vec<_>>();
 
         let mut ser = serializer.serialize_struct("Pairs", 2)?;
